@@ -14,7 +14,9 @@ disagreement, with the case as replay). Checked:
 * `NaiveDateTime::parse_from_str(_, "%Y-%m-%d %H:%M:%S")` facts — `(oracles … (tsparse (xTEXT (d s f)|none)…) …)` —
   against `Lit.parseTimestampLit`;
 * the serde_json rendering shipped for a finite REAL — `(reals (BITS xFIXED2 xJSON)…)` and the table of `print`
-  cases — must parse back (`parseF64N`) to the same bits (round trip; the rendering itself stays an oracle);
+  cases — must parse back to the same bits, both by `f64::from_str` (`parseF64N`, `real-roundtrip`) and by the RFC 8259
+  grammar with nearest rounding (`JsonDoc.readReal`, `real-json-roundtrip`: the hypothesis `RealReadsBack` of
+  `Props/C17Json.json_real_reads_back`); the rendering itself stays an oracle;
 * the `serde_json::from_str::<Value>` document shipped for a line — `(json J)` / `notjson` in `extract` cases and in the
   `(lines (l xLINE … FACT)…)` section of `e2e` cases — against `JsonDoc.docOfLine` of the line's bytes.
 -/
@@ -80,8 +82,11 @@ def checkRealEntry : Sexp → Option String
     match b.nat?, j.bytes? with
     | some bits, some text =>
       if bits % 2 ^ 63 < 0x7ff0000000000000 then
-        (if DecFloat.parseF64N text == some bits then none
-         else some s!"fact-mismatch real-roundtrip {bits} {Sexp.showBytes text} reads-back={showOptNat (DecFloat.parseF64N text)}")
+        (if DecFloat.parseF64N text != some bits then
+           some s!"fact-mismatch real-roundtrip {bits} {Sexp.showBytes text} reads-back={showOptNat (DecFloat.parseF64N text)}"
+         else if JsonDoc.readReal (text.map Char.ofNat) != some bits then
+           some s!"fact-mismatch real-json-roundtrip {bits} {Sexp.showBytes text} reads-back={showOptNat (JsonDoc.readReal (text.map Char.ofNat))}"
+         else none)
       else none
     | _, _ => none
   | _ => none
